@@ -213,6 +213,17 @@ def run(ctx):
             a = a + " " + rng.choice(["c&", "d8&", "c4&c8&", "e&"])
         pairs.append(("[%d %s ] c" % (k, a), " ".join([a] * k) + "  c", "[n body]", True))
         pairs.append(("[%d %s : %s ] c" % (k, a, b), " ".join([a + " " + b] * (k - 1) + [a]) + "  c", "[n a : b]", True))
+    # the same two shapes written INSIDE a chord and inside Sub{}: the ':' between chord quotes is a loop break like any other
+    # (not inside tuplets: a tuplet counts its elements in the text, so a loop there is not its unrolled text - observed, not claimed)
+    for _ in range(n // 8):
+        k = rng.randrange(1, 6)
+        a = " ".join(rng.choice("cdefgab") for _ in range(rng.randrange(1, 3)))
+        b = " ".join(rng.choice("cdefgab") for _ in range(rng.randrange(1, 3)))
+        tail = rng.choice("cdefgab")
+        ln = rng.choice(["", "4", "2", "8"])
+        pairs.append(("l4 '[%d %s : %s] %s'%s c" % (k, a, b, tail, ln), "l4 '%s %s'%s c" % (" ".join([a + " " + b] * (k - 1) + [a]), tail, ln), "[n a : b] inside a chord", True))
+        pairs.append(("l4 '[%d %s] %s'%s c" % (k, a, tail, ln), "l4 '%s %s'%s c" % (" ".join([a] * k), tail, ln), "[n body] inside a chord", True))
+        pairs.append(("l4 Sub{ [%d %s : %s] %s } c" % (k, a, b, tail), "l4 Sub{ %s %s } c" % (" ".join([a + " " + b] * (k - 1) + [a]), tail), "[n a : b] inside Sub", True))
     compare(ctx, pairs, "literal")
     # large counts (short bodies): 127 / 128 / 255 / 256 / 1000 are where a byte-sized or clamped counter would show
     pairs = []
